@@ -591,6 +591,20 @@ def rw_R34(rf, a, b):
     return out
 
 
+def rw_R37(rf, a, b):
+    """`log::debug!(..);` / `log::info!` / `warn!` / `error!` / `trace!` statements are dropped (logging is outside every
+    property; format macros are outside this Verus).  Only whole statements `log::<level>!( .. );` are touched."""
+    toks, sg, out = rf.toks, _sig(rf.toks, a, b), []
+    for k, i in enumerate(sg):
+        if toks[i].text == "log" and _seq_at(toks, sg, k + 1, [":", ":"]) and k + 5 < len(sg) and toks[sg[k + 3]].text in ("debug", "info", "warn", "error", "trace") \
+                and toks[sg[k + 4]].text == "!" and toks[sg[k + 5]].text == "(" and (k == 0 or toks[sg[k - 1]].text in ("{", "}", ";")):
+            close = L.match_close(toks, sg[k + 5])
+            nxt = [x for x in sg if x > close][:1]
+            if nxt and toks[nxt[0]].text == ";":
+                out.append((Edit(i, nxt[0] + 1, "", ("gen", "R37")), "R37 %s:%d logging statement `log::%s!(..)` dropped" % (rf.rel, toks[i].line, toks[sg[k + 3]].text)))
+    return out
+
+
 def rw_R32(rf, a, b):
     """`<place>.fetch_add(n, ord)` / `.fetch_sub(n, ord)` -> verif_fetch_add(&<place>, n, ord) / verif_fetch_sub(..): same std call
     inside, with an effect witness as contract (vstd already declares a specification for these two, a second one is refused)"""
@@ -996,7 +1010,7 @@ def rw_R5b(rf, a, b):
     return out
 
 
-REWRITES = {"R33": rw_R33, "R34": rw_R34, "R32": rw_R32, "R30": rw_R30, "R29": rw_R29, "R27": rw_R27, "R26": rw_R26, "R25": rw_R25, "R23": rw_R23, "R24": rw_R24, "R5b": rw_R5b, "R21": rw_R21, "R8": rw_R8, "R22": rw_R22, "R3b": rw_R3b, "R20": rw_R20, "R19": rw_R19, "R18": rw_R18, "R2b": rw_R2b, "R15": rw_R15, "R2": rw_R2, "R7": rw_R7, "R3": rw_R3, "R1": rw_R1, "R4": rw_R4, "R5": rw_R5, "R10": rw_R10, "R13": rw_R13, "R14": rw_R14}
+REWRITES = {"R37": rw_R37, "R33": rw_R33, "R34": rw_R34, "R32": rw_R32, "R30": rw_R30, "R29": rw_R29, "R27": rw_R27, "R26": rw_R26, "R25": rw_R25, "R23": rw_R23, "R24": rw_R24, "R5b": rw_R5b, "R21": rw_R21, "R8": rw_R8, "R22": rw_R22, "R3b": rw_R3b, "R20": rw_R20, "R19": rw_R19, "R18": rw_R18, "R2b": rw_R2b, "R15": rw_R15, "R2": rw_R2, "R7": rw_R7, "R3": rw_R3, "R1": rw_R1, "R4": rw_R4, "R5": rw_R5, "R10": rw_R10, "R13": rw_R13, "R14": rw_R14}
 
 
 # --------------------------------------------------------------------------------------------
